@@ -1,0 +1,71 @@
+//go:build verif
+
+// C18 contracts for package negotiation (comment-only; read by /verif/vc).
+package negotiation
+
+// Hooked hello messages are canonicalised by encode-then-decode before use: what the handshake works
+// with is never the object the application hook returned but a new message decoded from the hook
+// output's own wire encoding (so that it is a fixed point of decode-then-encode and contains nothing
+// the wire format cannot carry).
+
+//@ define SH() "*github.com/pion/dtls/v3/pkg/protocol/handshake.MessageServerHello"
+//@ define CH() "*github.com/pion/dtls/v3/pkg/protocol/handshake.MessageClientHello"
+
+// canonicalize: success means message.Marshal succeeded, canonical.Unmarshal was run on exactly the
+// bytes that Marshal returned, and it succeeded. Any failure is reported.
+//@ func canonicalize
+//@ watch Message.Marshal Message.Unmarshal
+//@ requires args: !isNil(message) && !isNil(canonical)
+//@ ensures encoded-once: ncalls("Message.Marshal") == 1 && sameRef(argAny("Message.Marshal", 0), message)
+//@ ensures encode-error-rejected: retErr("Message.Marshal", 1) != nil ==> result != nil && !called("Message.Unmarshal")
+//@ ensures decode-error-rejected: called("Message.Unmarshal") && retErr("Message.Unmarshal", 0) != nil ==> result != nil
+//@ ensures ok-decoded-the-encoding: result == nil ==> retErr("Message.Marshal", 1) == nil && ncalls("Message.Unmarshal") == 1 && retErr("Message.Unmarshal", 0) == nil
+//@    && sameRef(argAny("Message.Unmarshal", 0), canonical) && sameSlice(argBytes("Message.Unmarshal", 1), retBytes("Message.Marshal", 0))
+//@ ensures encode-before-decode: called("Message.Unmarshal") ==> calledBefore("Message.Marshal", "Message.Unmarshal")
+//@ end
+
+//@ func validatedServerHello
+//@ watch canonicalize
+//@ ensures wrong-type-rejected: !typeIs(message, SH()) || !nonNilPayload(message) ==> result0 == nil && result1 != nil && !called("canonicalize")
+//@ ensures result-is-new: result1 == nil ==> fresh(result0) && result0 != message.(*handshake.MessageServerHello)
+//@ ensures error-no-message: result1 != nil ==> result0 == nil
+//@ ensures ok-canonicalized: result1 == nil ==> ncalls("canonicalize") == 1 && retErr("canonicalize", 0) == nil
+//@ ensures canonicalize-error-rejected: called("canonicalize") && retErr("canonicalize", 0) != nil ==> result1 != nil
+//@ ensures canonical-source-is-the-message: called("canonicalize") ==> sameRef(argAny("canonicalize", 0), message)
+//@ ensures result-is-the-decoded-message: result1 == nil ==> result0 != nil && typeIs(argAny("canonicalize", 1), SH()) && argAny("canonicalize", 1).(*handshake.MessageServerHello) == result0
+//@ end
+
+//@ func validatedClientHello
+//@ watch canonicalize
+//@ ensures wrong-type-rejected: !typeIs(message, CH()) || !nonNilPayload(message) ==> result0 == nil && result1 != nil && !called("canonicalize")
+//@ ensures result-is-new: result1 == nil ==> fresh(result0) && result0 != message.(*handshake.MessageClientHello)
+//@ ensures error-no-message: result1 != nil ==> result0 == nil
+//@ ensures ok-canonicalized: result1 == nil ==> ncalls("canonicalize") == 1 && retErr("canonicalize", 0) == nil
+//@ ensures canonicalize-error-rejected: called("canonicalize") && retErr("canonicalize", 0) != nil ==> result1 != nil
+//@ ensures canonical-source-is-the-message: called("canonicalize") ==> sameRef(argAny("canonicalize", 0), message)
+//@ ensures result-is-the-decoded-message: result1 == nil ==> result0 != nil && typeIs(argAny("canonicalize", 1), CH()) && argAny("canonicalize", 1).(*handshake.MessageClientHello) == result0
+//@ end
+
+// FinalizeServerHello / FinalizeClientHello: the message handed on is the canonical (decoded) form of the
+// last message validated; with a hook, that is the hook's output, and the hook saw (a copy of) the canonical
+// base message only after that one was validated. Nothing is returned when a validation failed.
+
+//@ func FinalizeServerHello
+//@ watch validatedServerHello hook
+//@ ensures base-validated-first: called("validatedServerHello") && always("hook", "ncalls(\"validatedServerHello\") == 1 && retErr(\"validatedServerHello\", 1) == nil")
+//@ ensures no-hook-single-pass: hook == nil ==> ncalls("validatedServerHello") == 1 && typeIs(argAny("validatedServerHello", 0), SH()) && argAny("validatedServerHello", 0).(*handshake.MessageServerHello) == base
+//@ ensures hook-output-canonicalized: called("hook") ==> ncalls("hook") == 1 && ncalls("validatedServerHello") == 2 && sameRef(argAny("validatedServerHello", 0), retAny("hook", 0))
+//@ ensures validation-error-rejected: retErr("validatedServerHello", 1) != nil ==> result0 == nil && sameRef(result1, retErr("validatedServerHello", 1))
+//@ ensures result-is-canonical: result1 == nil ==> result0 != nil && retErr("validatedServerHello", 1) == nil && result0 == retAs("validatedServerHello", 0, result0)
+//@ ensures error-no-message: result1 != nil ==> result0 == nil
+//@ end
+
+//@ func FinalizeClientHello
+//@ watch validatedClientHello hook
+//@ ensures base-validated-first: called("validatedClientHello") && always("hook", "ncalls(\"validatedClientHello\") == 1 && retErr(\"validatedClientHello\", 1) == nil")
+//@ ensures no-hook-single-pass: hook == nil ==> ncalls("validatedClientHello") == 1 && typeIs(argAny("validatedClientHello", 0), CH()) && argAny("validatedClientHello", 0).(*handshake.MessageClientHello) == base
+//@ ensures hook-output-canonicalized: called("hook") ==> ncalls("hook") == 1 && ncalls("validatedClientHello") == 2 && sameRef(argAny("validatedClientHello", 0), retAny("hook", 0))
+//@ ensures validation-error-rejected: retErr("validatedClientHello", 1) != nil ==> result0 == nil && sameRef(result2, retErr("validatedClientHello", 1))
+//@ ensures result-is-canonical: result2 == nil ==> result0 != nil && retErr("validatedClientHello", 1) == nil && result0 == retAs("validatedClientHello", 0, result0)
+//@ ensures error-no-message: result2 != nil ==> result0 == nil
+//@ end
